@@ -158,6 +158,11 @@ func (eng *Engine) VerifyFunc(pkg *packages.Package, decl *ast.FuncDecl, c *Cont
 	fc.assumeGlobal(app(">=", fc.heapGet(st, "$alloc", "Int"), "0"))
 	if r := sig.Recv(); r != nil && r.Name() != "" && r.Name() != "_" {
 		st.vars[r] = fc.freshParam(st, r, "in")
+		if _, isPtr := r.Type().Underlying().(*types.Pointer); isPtr {
+			// safety invariant of inputs: methods are verified for non-nil receivers
+			fc.assume(st, not(app("=", st.vars[r].T, "0")))
+			fc.dropped["methods are verified for non-nil pointer receivers (a nil receiver panics at the first field access)"] = true
+		}
 	}
 	for i := 0; i < sig.Params().Len(); i++ {
 		p := sig.Params().At(i)
